@@ -7,6 +7,8 @@ Calls into the crate are inlined (bounded depth); calls into std are interpreted
 table (axioms.py) or become opaque.  Nothing is executed: all values are terms (terms.py) and
 branch feasibility is decided by solver.py.
 """
+import ast
+import re
 import sys
 import terms as T
 import tys
@@ -120,6 +122,7 @@ class Ev:
         self.all_obls = []       # every obligation met on any explored path (including paths that end in the panic)
         self.entry_generics = set()
         self.unrolling = set()
+        self.unroll_bounds = {}
         self.unrolled = []
         self.unroll_work = 0
         self.frames = {}
@@ -206,7 +209,7 @@ class Ev:
                 # bounded unrolling attempt: keep going while the iteration count stays small
                 n = st.iters.get(key, 0) + 1
                 self.unroll_work += 1
-                if n > self.UNROLL_MAX or self.unroll_work > 4000:
+                if n > max(self.UNROLL_MAX, self.unroll_bounds.get(key, 0) + 1) or self.unroll_work > 20000:
                     raise UnrollFail()
                 st.iters[key] = n
                 return self.exec_block(fr, b, st)
@@ -218,12 +221,19 @@ class Ev:
 
     UNROLL_MAX = 12
 
+    def unroll_hint(self, n):
+        """an iterator over a sequence of constant length n was stepped: loops over it end after n iterations"""
+        if n <= 256:
+            for key in self.unrolling:
+                self.unroll_bounds[key] = max(self.unroll_bounds.get(key, 0), n)
+
     def enter_loop(self, fr, h, st, li):
         key = (fr.fid, h)
         # first try to unroll: loops over a bounded iterator (e.g. splitn(7)) end by themselves on every path
         if key not in self.unrolling:
             self.unrolling.add(key)
             self.unroll_work = 0
+            self.unroll_bounds[key] = 0
             n_obls, n_extra, n_loops = len(self.all_obls), len(self.extra_obls), len(self.loops)
             try:
                 outs = self.exec_block(fr, h, st.copy())
@@ -416,9 +426,16 @@ class Ev:
         return None
 
     # -------------------------------------------------------------------------------- values
-    def const(self, c):
+    def const(self, c, fr=None):
         if 'int' in c:
             return T.I(c['int'])
+        if 'unevaluated' in c:
+            # a const generic parameter: its value comes from the instantiation being analysed
+            m = re.match(r'Ty\(\w+, (\w+)/#\d+\)$', c['unevaluated'])
+            g = fr.gmap.get(m.group(1)) if (m and fr is not None) else None
+            if g is not None and g[0] == 'path' and g[1].isdigit():
+                return T.I(int(g[1]))
+            return ('opaque', 'const generic %s' % c['unevaluated'])
         for k in ('slice_bytes', 'ref_bytes'):
             if k in c:
                 return ('bytes', bytes.fromhex(c[k]))
@@ -441,7 +458,7 @@ class Ev:
         if 'move' in o:
             return self.read_place(fr, o['move'], st)
         if 'const' in o:
-            return self.const(o['const'])
+            return self.const(o['const'], fr)
         return ('opaque', 'operand')
 
     def adt_of_type(self, ty):
@@ -712,15 +729,25 @@ class Ev:
                     return ('bytes', bytes(o[1] for o in ops))
                 return ('arr', tuple(ops))
             if ak == 'closure':
+                if fr.gmap:
+                    # the closure body refers to its creator's generic parameters
+                    return ('closure', rv['closure'], tuple(ops), repr(sorted(fr.gmap.items())))
                 return ('closure', rv['closure'], tuple(ops))
             return ('opaque', 'aggregate %s' % ak)
         if k == 'repeat':
             v = self.operand(fr, rv['op'], st)
             n = rv['n']
+            if n is None and stmt is not None:
+                # length is a const generic parameter: read it from the destination's instantiated type
+                ty = tys.subst(tys.parse(stmt['place'].get('ty', '?')), fr.gmap)
+                if ty[0] == 'array' and str(ty[2]).isdigit():
+                    n = int(ty[2])
             if n is None:
                 return ('opaque', 'repeat')
             if v[0] == 'int' and 0 <= v[1] < 256 and n <= 4096:
                 return ('bytes', bytes([v[1]]) * n)
+            if v[0] != 'int' and n <= 64:
+                return ('arr', (v,) * n)        # a small array of non-byte elements (e.g. [""; 7]) is kept element-wise
             return ('repeat', v, T.I(n))
         if k == 'rawptr':
             return ('opaque', 'raw pointer')
@@ -968,7 +995,8 @@ class Ev:
                 return [(st, ('opaque', 'closure body missing'))]
             # closure bodies take (env, args...) ; env by reference or value -> pass the closure value itself
             self.call_sites.append((fr.fn['path'], clo[1], (site or {}).get('span', '?'), 'closure'))
-            return self.eval_fn(clo[1], [clo] + list(args), st, dict(fr.gmap), fr.depth + 1)
+            gm = dict(ast.literal_eval(clo[3])) if len(clo) > 3 else dict(fr.gmap)
+            return self.eval_fn(clo[1], [clo] + list(args), st, gm, fr.depth + 1)
         if clo[0] == 'fn':
             p = clo[1]
             # tuple-variant / struct constructors used as functions
@@ -988,5 +1016,10 @@ class Ev:
                 info = {'c': {'path': p, 'name': last}, 'targs': [tys.parse(a) for a in clo[2]], 'rargs': [tys.parse(a) for a in clo[2]],
                         'site': site or {'span': '?', 'fn': fr.fn['path']}, 'fr': fr}
                 return ax(self, st, info, list(args))
+            tr = p.rsplit('::', 1)[0]
+            if tr in self.facts.traits:
+                # a trait method used as a function value (`E::is_incomplete`): same as the method call
+                c = {'trait': tr, 'name': last, 'path': p, 'args': list(clo[2])}
+                return self.call(fr, c, list(args), st, site or {'span': '?', 'fn': fr.fn['path']})
             return [(st, ('call', 'fn:' + p, tuple(args)))]
         return [(st, ('opaque', 'call of non-function value'))]
